@@ -118,6 +118,33 @@ def heap_program(rng):
     return "\n".join(lines)
 
 
+def root_matrix():
+    """every place a live value can sit when a collection runs (the machine's root groups: operand
+    stack incl. suspended frames' locals and pending operands, constants, globals, the last-popped
+    register, the value being returned) x every way a function returns (`Return` / `ReturnValue`,
+    with and without allocation inside) x fresh heap values of every kind; more allocation follows
+    the call so that a wrongly released box is reused before the root is observed"""
+    fresh = ["2.5 * 3.0", "string(42)", '"a" + "b"', "[1.5 + 1.0]", "[[2.5 * 2.0], string(7)]"]
+    fkinds = ["functie f() { stel t = 1.5 * 2.0 }", "functie f() { }", "functie f() { 1 }", "functie f() { antwoord [9.5 + 0.0] }",
+              "functie f() { stel t = [0.5 + 0.5]; zolang nee { } }", "functie f() { stel t = string(5); als nee { 1 } }"]
+    alloc = ["6.0 * 7.0", "string(99)", "[8.5 - 0.5]"]
+    out = []
+    for vi, v in enumerate(fresh):
+        for fi, f in enumerate(fkinds):
+            a = alloc[(vi + fi) % len(alloc)]
+            a2 = alloc[(vi + fi + 1) % len(alloc)]
+            out.append(("root-last", "%s;\n%s;\n%s;\nstel x = f();\nstel y = %s;\nstel z = %s;" % (f, "stel w = 0", v, a, a2)))
+            out.append(("root-last-fn", "%s;\nfunctie o() { %s; stel x = f(); stel y = %s }\no();" % (f, v, a)))
+            out.append(("root-global", "%s;\nstel g = %s;\nf();\nstel y = %s;\nstel z = %s;\ng" % (f, v, a, a2)))
+            out.append(("root-local", "%s;\nfunctie o() { stel l = %s; f(); stel y = %s; stel z = %s; l }\no()" % (f, v, a, a2)))
+            out.append(("root-param", "%s;\nfunctie o(p) { f(); stel y = %s; stel z = %s; p }\no(%s)" % (f, a, a2, v)))
+            out.append(("root-pending", "%s;\n[%s, f(), %s, %s]" % (f, v, a, a2)))
+            out.append(("root-argument", "%s;\nfunctie k(a, b, c) { [a, c] }\nk(%s, f(), %s)" % (f, v, a)))
+            out.append(("root-returned", "%s;\nfunctie r() { stel q = f(); %s }\n[r(), f(), %s]" % (f, v, a)))
+            out.append(("root-element", "%s;\nstel g = [0, [0]];\ng[1][0] = %s;\nf();\nstel y = %s;\ng" % (f, v, a)))
+    return out
+
+
 def run(res, tier, rng, table_diffs=()):
     seqs = enum_seqs(["F", "S", "A:0,1"], 3, [2], 3 if tier == "quick" else 4)
     seqs += enum_seqs([], 0, [], 4 if tier == "quick" else 5)
@@ -149,6 +176,7 @@ def run(res, tier, rng, table_diffs=()):
                 "functie f() { 1.5 } 1.0 + f() + f() * f()", "functie f() { \"x\" } print(f(), f(), f()); f()"]
     for d in directed:
         cases.append(("directed", d))
+    cases += root_matrix()
     run_cases(res, "C03", cases)
 
 
